@@ -352,7 +352,19 @@ func constructWithValue(sh *engine.Shape) (*constructed, any, error) {
 			flags |= 1
 		}
 		inner := refmodel.Expand(sh.Seed, "c06-inner", sh.Size)
-		els, err := encrypted_leaseset.NewEncryptedLeaseSet(uint16(sh.Sig), append([]byte(nil), bk.Pub...), uint32(sh.U[0]), uint16(sh.U[1]), flags, off, inner, sk)
+		var els *encrypted_leaseset.EncryptedLeaseSet
+		if sh.Seed%3 == 0 {
+			// the other constructor: from a (blinded) Destination whose signing key is the blinded key
+			bid := refmodel.NewIdentity(sh.IdentSeed, sh.Sig, refmodel.EncX25519, "key", 0)
+			bd, derr := libDestination(bid)
+			if derr != nil {
+				c.skipped = "blinded destination refused"
+				return c, val, nil
+			}
+			els, err = encrypted_leaseset.NewEncryptedLeaseSetFromDestination(bd, uint32(sh.U[0]), uint16(sh.U[1]), flags, off, inner, sk)
+		} else {
+			els, err = encrypted_leaseset.NewEncryptedLeaseSet(uint16(sh.Sig), append([]byte(nil), bk.Pub...), uint32(sh.U[0]), uint16(sh.U[1]), flags, off, inner, sk)
+		}
 		if err != nil {
 			c.skipped = "NewEncryptedLeaseSet: " + short(err)
 			return c, val, nil
